@@ -71,6 +71,12 @@ check("C11", "exploration",
       "scenes exclude what the statement excludes (tweens in progress, commands in flight, delayed / clock-scheduled starts, modulators); exhaustive over partitions of 8 frames, representative partitions beyond.",
       "DESIGN.md §3 C11")
 
+check("C09", "model_checking",
+      "exhaustive differential enumeration: a streaming and a static Sound of the same audio run in lock-step over a full product of settings, decoder scripts and command histories (the static implementation is the reference model; the real decoder thread is paced deterministically)",
+      "Audio length {1,2,3,5,8} (1..8 thorough) x rate {1,0.5,2,1.5,0} x packet pattern {1s,2s,3s,one packet,1-3-2} x seek granularity {1,3,8} x every start position x slice {none, inner} x loop {none, whole, lattice regions incl. ones crossing packet boundaries} x chunk {1,3} x every command history of length <= 1 (2 thorough) over {none, volume tween, panning, pause 0/2f, resume, stop, rate change}; after every callback: output frames equal (bit-exact on integer steps, 1e-6 otherwise), playback states equal, finished within one callback of each other, positions within one frame until the audio ends. Four long runs consume > 17000 frames of a looping stream so the wrap-around of the decoder's 16384-frame ring is crossed.",
+      "the decoder keeps ahead (assumption of the statement), enforced through the verif-hooks gate; the end of the sound may be observed one callback apart (different look-ahead windows).",
+      "DESIGN.md §3 C09")
+
 NOT_YET = {}
 
 def main():
